@@ -10,12 +10,16 @@
    - C02_publish_any_partition / C02_play_any_partition: the same when the sender's packets are cut into input calls in ANY
      way (composition with C15 for sessions): exactly one event per item, in order, byte-exact, no error.  The two directions
      are independent streams, so every interleaving of deliveries is covered.
-   PARTIAL: the command phases (connect / createStream / publish / play / stop) are exercised, not proved: the composed model
+   - C02_transport / C02_client_call_transport / C02_server_call_transport: the transport layer in full generality - the packets
+     returned by ANY successful call of either session (commands, replies, control messages, chunk-size changes, media), delivered
+     in ANY fragmentation to a deserializer linked with that session's serializer, are decoded as exactly one message per packet,
+     in order, without error, and the link holds again: the two chunk layers never desynchronize in any schedule.
+   PARTIAL: the message-level protocol of the command phases (connect / createStream / publish / play / stop) are exercised, not proved: the composed model
    Model/Interop.v (extracted and compared with the two real sessions wired back to back on every case) runs them under
    byte-wise / fixed / mixed fragmentation with the oracles C02.* on the real events, and scenario_publish / scenario_play
    are computed instances reaching the states the theorems start from; metadata items are covered by the same runs. *)
 From RML Require Import Model.Base Model.Chunk Model.ChunkSer Model.ChunkDe Model.Messages Model.SessionCommon Model.Server Model.Client
-  Model.Interop Proofs.ChunkSerProofs Proofs.InteropProofs Proofs.SessionPartition Proofs.ClientPartition Proofs.InteropPartition Proofs.MetadataProofs Proofs.InteropMetadata.
+  Model.Interop Proofs.ChunkSerProofs Proofs.InteropProofs Proofs.SessionPartition Proofs.ClientPartition Proofs.InteropPartition Proofs.MetadataProofs Proofs.InteropMetadata Proofs.Transport Proofs.ServerProofs Proofs.SessionFrame Proofs.SessionTrace Proofs.ClientTrace Proofs.SessionTransport.
 From Coq Require Import String.
 Local Open Scope N_scope.
 
@@ -76,6 +80,31 @@ Proof. exact publish_metadata_delivered. Qed.
 Theorem C02_metadata_mapping_identity : forall m, md_ok m -> metadata_of_props (metadata_props_client m) = m.
 Proof. exact metadata_roundtrip_client. Qed.
 
+Theorem C02_transport : forall ser de ops packets ser' pieces,
+  Link ser de -> Forall op_wf ops -> ser_run ser ops = Ok (packets, ser') -> List.concat pieces = List.concat packets ->
+  exists de', feed_all de pieces [] = (de', map op_msg ops, None) /\ Link ser' de'.
+Proof. exact link_run. Qed.
+
+Theorem C02_client_call_transport : forall c op de pieces,
+  cop_ok op -> cinv c -> ser_ok (cl_ser c) -> Link (cl_ser c) de ->
+  match client_step c op with
+  | (c', COk rs) =>
+      List.concat pieces = List.concat (map fst (cpkts rs)) ->
+      exists de' msgs, feed_all de pieces [] = (de', msgs, None) /\ List.length msgs = List.length (cpkts rs) /\ Link (cl_ser c') de' /\ cinv c'
+  | _ => True
+  end.
+Proof. exact client_call_transport. Qed.
+
+Theorem C02_server_call_transport : forall s op de pieces,
+  sop_ok op -> sinv s -> ser_ok (sv_ser s) -> Link (sv_ser s) de ->
+  match server_step s op with
+  | (s', ROk rs) =>
+      List.concat pieces = List.concat (map fst (pkts rs)) ->
+      exists de' msgs, feed_all de pieces [] = (de', msgs, None) /\ List.length msgs = List.length (pkts rs) /\ Link (sv_ser s') de' /\ sinv s'
+  | _ => True
+  end.
+Proof. exact server_call_transport. Qed.
+
 Example C02_scenario_publish :
   filter is_media_or_lifecycle (server_events_of (ex_run ex_publish_ops)) =
   [ EvConnectionRequested 0 (str "live");
@@ -103,4 +132,7 @@ Print Assumptions C02_play_sequence.
 Print Assumptions C02_publish_any_partition.
 Print Assumptions C02_play_any_partition.
 Print Assumptions C02_publish_metadata.
+Print Assumptions C02_transport.
+Print Assumptions C02_client_call_transport.
+Print Assumptions C02_server_call_transport.
 Print Assumptions C02_metadata_mapping_identity.
